@@ -107,6 +107,13 @@ def check_panel(case):
         else:
             if pan.worst(Kb, -Kb.T, S, RTOL)[0] > 1:
                 fails.append(fail('reference self-check failed: flow-derivative part not skew', sig=None, case=case))
+    # unfinalised matrix (the form assemblies ask for): its upper triangle is the upper triangle of the complete form
+    if restrained and not fails:
+        p.beta, p.gamma = beta, gamma
+        Ku = pan.dense(p.calc_kA(silent=True, finalize=False))
+        if pan.worst(np.triu(Ku), np.triu(Kr), S, RTOL)[0] > 1:
+            fails.append(fail('unfinalised kA (finalize=False) does not carry the upper triangle of beta*Int(w_A dw_B/dflow) - gamma*Int(w_A w_B)',
+                              sig=None, case=case))
     # linearity in the coefficients (edges between real executions), demanded also for free flow edges
     p.beta, p.gamma = 2 * beta, 2 * gamma
     K2 = pan.dense(p.calc_kA(silent=True))
